@@ -31,7 +31,7 @@ func init() {
 		Directed:   c14Directed,
 		Run:        c14Run,
 		MustHit:    []string{"builder=BuildAuthURLRedirect", "builder=BuildLogoutURLRedirect", "builder=BuildAuthURL", "builder=AuthRedirect", "relay_absent", "relay_with_space", "relay_with_reserved", "endpoint_with_query", "signed_redirect", "unsigned_redirect", "ec_signer"},
-		RandomRuns: map[string]int{"quick": 1200, "thorough": 50000},
+		RandomRuns: map[string]int{"quick": 6000, "thorough": 50000},
 	})
 }
 
